@@ -18,6 +18,7 @@ class LoopSpec(object):
         self.ordinal = ordinal
         self.invariants = []     # [(label, expr_ir)]
         self.steps = []          # [(label, expr_ir, text)] two-state clauses checked at the end of one iteration
+        self.breaks = []         # [(label, expr_ir, text)] clauses that must hold whenever the loop is left by `break`
         self.unroll = None       # int: concrete unrolling allowed up to this many iterations
         self.modifies_extra = [] # extra havoc targets (expression strings)
         self.decreases = None
@@ -131,6 +132,11 @@ class LoopSpecBuilder(LoopSpec):
     def step(self, expr, label=None):
         """clause over head(...) (state at the head of an arbitrary iteration) and the state at the end of the body"""
         self.steps.append((label or 'step#%d' % (len(self.steps) + 1), parse_expr(expr), expr))
+        return self
+
+    def at_break(self, expr, label=None):
+        """clause (may use head(...)) that must hold in the state in which the loop is left by a break statement"""
+        self.breaks.append((label or 'break#%d' % (len(self.breaks) + 1), parse_expr(expr), expr))
         return self
 
     def unroll_up_to(self, n):
